@@ -11,9 +11,16 @@ package main
 //	    provider.NewNum, a gun that records the instant of Shoot entry and then sleeps resp[k mod len] ms (k = number of
 //	    the shot of that instance), an aggregator that records every Report.
 //
+//	mode=proc given=<none|true|false> lat=<ms> times=<N>
+//	    the real pandora BINARY (go build of <repo>/main.go) with a yaml config whose pool section does not mention
+//	    discard_overflow / says true / says false, profile once(N), one instance, http gun against an in-process target that
+//	    answers after lat ms, phout result file: ties cli.readConfig's default, the config decoding, the wiring into the
+//	    instances and the phout rendering of the discarded sample (proc.go).
+//
 // Observation (all instants in ns since T0, taken on the monotonic clock):
 //
 //	end=<ns> err=<nil|ctx|other> total=<tokens of the profile> bad=<discard samples with wrong code/tag> net=<code> tag=<tag>
+//	offs=<expected token offsets of the profile, ns after its first token, from a separate copy of the same schedule>
 //	seq=<tok>:<pick>:<ret>:<F|D|->,...|<next instance>...
 //
 // pick = instant at which Schedule.Next returned the token to the waiter (taken inside the schedule wrapper before it
@@ -24,6 +31,7 @@ import (
 	"context"
 	"fmt"
 	"math/rand"
+	"os"
 	"sort"
 	"strconv"
 	"strings"
@@ -224,6 +232,17 @@ func buildProfile(p string) core.Schedule {
 			ops, _ := strconv.ParseFloat(f[1], 64)
 			ms, _ := strconv.ParseInt(f[2], 10, 64)
 			parts = append(parts, schedule.NewConst(ops, time.Duration(ms)*time.Millisecond))
+		case f[0] == "line" && len(f) == 4:
+			from, _ := strconv.ParseFloat(f[1], 64)
+			to, _ := strconv.ParseFloat(f[2], 64)
+			ms, _ := strconv.ParseInt(f[3], 10, 64)
+			parts = append(parts, schedule.NewLine(from, to, time.Duration(ms)*time.Millisecond))
+		case f[0] == "step" && len(f) == 5:
+			from, _ := strconv.ParseFloat(f[1], 64)
+			to, _ := strconv.ParseFloat(f[2], 64)
+			st, _ := strconv.ParseInt(f[3], 10, 64)
+			ms, _ := strconv.ParseInt(f[4], 10, 64)
+			parts = append(parts, schedule.NewStep(from, to, st, time.Duration(ms)*time.Millisecond))
 		default:
 			panic("bad profile " + seg)
 		}
@@ -237,10 +256,14 @@ func buildProfile(p string) core.Schedule {
 func runWaiter(m map[string]string) string {
 	toks := parseMs(m["toks"])
 	sleeps := parseMs(m["sleeps"])
+	unit := time.Millisecond
+	if m["unit"] == "us" {
+		unit = time.Microsecond
+	}
 	rec := newRecorder()
 	ss := &scriptSched{}
 	for _, t := range toks {
-		ss.toks = append(ss.toks, rec.clk.T0.Add(time.Duration(t)*time.Millisecond))
+		ss.toks = append(ss.toks, rec.clk.T0.Add(time.Duration(t)*unit))
 	}
 	ctx, cancel := context.WithCancel(context.Background())
 	defer cancel()
@@ -252,7 +275,7 @@ func runWaiter(m map[string]string) string {
 	w := coreutil.NewWaiter(&recSched{Schedule: ss, rec: rec})
 	for i := range toks {
 		if i < len(sleeps) && sleeps[i] > 0 {
-			time.Sleep(time.Duration(sleeps[i]) * time.Millisecond)
+			time.Sleep(time.Duration(sleeps[i]) * unit)
 		}
 		if !w.Wait(ctx) {
 			continue
@@ -278,12 +301,19 @@ func runEngine(m map[string]string) string {
 	if len(resp) == 0 {
 		resp = []time.Duration{0}
 	}
-	// tokens of the profile, counted on a separate copy of the same schedule
+	// tokens of the profile, counted on a separate copy of the same schedule; their offsets from the first one
 	total := 0
+	var offs []string
+	var first time.Time
 	for cp := buildProfile(m["prof"]); ; total++ {
-		if _, ok := cp.Next(); !ok || total > 1_000_000 {
+		ts, ok := cp.Next()
+		if !ok || total > 100_000 {
 			break
 		}
+		if total == 0 {
+			first = ts
+		}
+		offs = append(offs, strconv.FormatInt(int64(ts.Sub(first)), 10))
 	}
 	rec := newRecorder()
 	conf := engine.InstancePoolConfig{
@@ -322,7 +352,7 @@ func runEngine(m map[string]string) string {
 			e = "other"
 		}
 	}
-	return fmt.Sprintf("end=%d err=%s total=%d bad=%d net=%s tag=%s seq=%s", end, e, total, rec.bad, rec.net, rec.tag, rec.render())
+	return fmt.Sprintf("end=%d err=%s total=%d bad=%d net=%s tag=%s offs=%s seq=%s", end, e, total, rec.bad, rec.net, rec.tag, strings.Join(offs, ","), rec.render())
 }
 
 func run(input string) string {
@@ -332,6 +362,8 @@ func run(input string) string {
 		return runWaiter(m)
 	case "engine":
 		return runEngine(m)
+	case "proc":
+		return runProc(m)
 	}
 	return "BADINPUT"
 }
@@ -383,8 +415,131 @@ func genWaiter(r *rand.Rand) string {
 	return fmt.Sprintf("mode=waiter toks=%s sleeps=%s", joinInts(toks), joinInts(sleeps))
 }
 
+// genWaiterNear draws a Waiter case whose tokens are a few ms / a few hundred µs around the 2 s threshold when picked up
+// (unit=us: toks and sleeps in microseconds). The decision is judged against the measured [pick, ret] interval, so a token
+// that lands inside it is counted as inconclusive, never as a failure.
+func genWaiterNear(r *rand.Rand, us bool) string {
+	n := 2 + r.Intn(5)
+	unit := int64(1)
+	ds := []int64{0, 1, 2, 3, 5, 10, 20, 50, 100, 200}
+	if us {
+		unit = 1000
+		ds = []int64{0, 100, 200, 300, 500, 700, 1000, 1500, 3000, 10000}
+	}
+	var toks, sleeps []int64
+	var clock int64 // expected instant of the next Wait call, in units
+	for i := 0; i < n; i++ {
+		var sl int64
+		switch r.Intn(3) {
+		case 0:
+			sl = int64(20+r.Intn(300)) * unit
+		case 1:
+			if i > 0 {
+				sl = int64(1000+r.Intn(1200)) * unit
+			}
+		}
+		clock += sl
+		d := ds[r.Intn(len(ds))]
+		late := 2000*unit + d
+		if r.Intn(2) == 0 {
+			late = 2000*unit - d
+		}
+		if r.Intn(7) == 0 {
+			late = -int64(20+r.Intn(100)) * unit // a timer sleep in between: refreshes the cached reading
+		}
+		toks = append(toks, clock-late)
+		sleeps = append(sleeps, sl)
+		if late < 0 {
+			clock += -late
+		}
+	}
+	u := ""
+	if us {
+		u = " unit=us"
+	}
+	return fmt.Sprintf("mode=waiter toks=%s sleeps=%s%s", joinInts(toks), joinInts(sleeps), u)
+}
+
+// genWaiterCancel: the context is cancelled while the Waiter sleeps on its timer (or between calls)
+func genWaiterCancel(r *rand.Rand) string {
+	n := 3 + r.Intn(3)
+	var toks, sleeps []int64
+	var clock int64
+	for i := 0; i < n; i++ {
+		late := int64(r.Intn(3000))
+		if r.Intn(2) == 0 {
+			late = -int64(100 + r.Intn(400))
+		}
+		toks = append(toks, clock-late)
+		sleeps = append(sleeps, 0)
+		if late < 0 {
+			clock += -late
+		}
+	}
+	return fmt.Sprintf("mode=waiter toks=%s sleeps=%s cancel=%d", joinInts(toks), joinInts(sleeps), 50+r.Intn(int(clock)+200))
+}
+
+var respPool = []int64{0, 0, 50, 300, 700, 1000, 1500, 2100, 3000, 4000}
+
+func genSeg(r *rand.Rand, small bool) string {
+	switch k := r.Intn(6); {
+	case k == 0:
+		return fmt.Sprintf("once:%d", 1+r.Intn(8))
+	case k == 1 && !small:
+		return fmt.Sprintf("line:%d:%d:%d", 1+r.Intn(6), 4+r.Intn(16), 1000+500*r.Intn(4))
+	case k == 2 && !small:
+		return fmt.Sprintf("step:%d:%d:%d:%d", 2+r.Intn(4), 8+r.Intn(8), 3+r.Intn(4), 500+250*r.Intn(3))
+	case small:
+		return fmt.Sprintf("const:%d:%d", 2+r.Intn(5), 1000)
+	default:
+		return fmt.Sprintf("const:%d:%d", 2+r.Intn(19), 1000+500*r.Intn(5))
+	}
+}
+
+// genEngine draws one engine scenario: instance count, profile (1-2 segments of once/const/line/step), a response-time
+// history of 1..5 entries (repeated cyclically per instance) and discard_overflow. With discard_overflow off every token is
+// fired, so the profile is kept small and the responses short enough for the serial work to stay within a few seconds.
+func genEngine(r *rand.Rand, thorough bool) string {
+	insts := []int{1, 1, 2, 3, 4, 8}
+	if thorough {
+		insts = append(insts, 16, 5)
+	}
+	inst := insts[r.Intn(len(insts))]
+	discard := 1
+	if r.Intn(4) == 0 {
+		discard = 0
+	}
+	prof := genSeg(r, discard == 0)
+	if r.Intn(3) == 0 {
+		prof += "+" + genSeg(r, discard == 0)
+	}
+	n := 1 + r.Intn(5)
+	var resp []int64
+	for i := 0; i < n; i++ {
+		v := respPool[r.Intn(len(respPool))]
+		if discard == 0 && v > 700 {
+			v = 300
+		}
+		resp = append(resp, v)
+	}
+	s := fmt.Sprintf("mode=engine inst=%d prof=%s resp=%s discard=%d", inst, prof, joinInts(resp), discard)
+	if inst > 1 && r.Intn(5) == 0 {
+		s += " perinst=1"
+	}
+	if r.Intn(12) == 0 {
+		s += fmt.Sprintf(" cancel=%d", 300+r.Intn(3000))
+	}
+	return s
+}
+
 func gen(r *rand.Rand, tier string) []string {
 	var out []string
+	thorough := tier == "thorough"
+	// the pandora binary with a config that leaves discard_overflow out / sets it: default, explicit true, explicit false
+	out = append(out,
+		"mode=proc given=none lat=800 times=6",
+		"mode=proc given=false lat=800 times=5",
+		"mode=proc given=true lat=800 times=6")
 	// scripted engine scenarios: single and several instances, const/once profiles, response-time histories 0 / 0.3 s /
 	// 1 s / 3 s and mixtures
 	quick := []string{
@@ -398,27 +553,51 @@ func gen(r *rand.Rand, tier string) []string {
 		"mode=engine inst=2 prof=const:5:2000 resp=0,0,3000 discard=1 perinst=1",
 		"mode=engine inst=1 prof=once:2+const:5:2000 resp=1000,300 discard=1",
 		"mode=engine inst=1 prof=const:10:3000 resp=1000 discard=1 cancel=2500",
+		"mode=engine inst=4 prof=line:2:12:2000 resp=700,2100 discard=1",
+		"mode=engine inst=8 prof=step:4:12:4:500 resp=1500 discard=1",
 	}
 	out = append(out, quick...)
-	nw := 40
-	if tier == "thorough" {
-		nw = 200
-		for _, inst := range []int{1, 2, 4} {
-			for _, resp := range []string{"0", "300", "1000", "3000", "0,300,1000,3000", "3000,0"} {
+	ne, nw, nn, nc := 10, 40, 16, 3
+	if thorough {
+		ne, nw, nn, nc = 420, 900, 500, 60
+		for _, g := range []string{"none", "true", "false"} {
+			for _, lat := range []int{700, 1100} {
+				for _, times := range []int{4, 7} {
+					out = append(out, fmt.Sprintf("mode=proc given=%s lat=%d times=%d", g, lat, times))
+				}
+			}
+		}
+		// the grid: instance counts x response-time histories x discard_overflow
+		for _, inst := range []int{1, 2, 3, 4, 8, 16} {
+			for _, resp := range []string{"0", "300", "1000", "2100", "3000", "0,300,1000,3000", "3000,0", "4000,0,0"} {
 				for _, d := range []int{0, 1} {
-					prof := []string{"const:10:2000", "once:6", "const:4:3000", "once:3+const:8:1500"}[r.Intn(4)]
+					prof := []string{"const:10:2000", "once:6", "const:4:3000", "once:3+const:8:1500", "line:1:10:2000", "step:2:10:4:700"}[r.Intn(6)]
 					if d == 0 {
 						// without discards every token is fired: keep the serial work short
 						prof = []string{"const:5:1000", "once:4"}[r.Intn(2)]
+						if inst >= 4 {
+							prof = []string{"const:10:1000", "once:9", "line:2:10:1000"}[r.Intn(3)]
+						}
 					}
 					out = append(out, fmt.Sprintf("mode=engine inst=%d prof=%s resp=%s discard=%d", inst, prof, resp, d))
 				}
 			}
 		}
 	}
+	for i := 0; i < ne; i++ {
+		out = append(out, genEngine(r, thorough))
+	}
 	for i := 0; i < nw; i++ {
 		out = append(out, genWaiter(r))
 	}
+	for i := 0; i < nn; i++ {
+		out = append(out, genWaiterNear(r, i%2 == 1))
+	}
+	for i := 0; i < nc; i++ {
+		out = append(out, genWaiterCancel(r))
+	}
+	// exactly on / one ms around the threshold at the first call (pick-up a few µs after T0)
+	out = append(out, "mode=waiter toks=-2000,-1999,-2001,-1998 sleeps=0,0,0,0")
 	// cancellation while sleeping on the timer
 	out = append(out, "mode=waiter toks=-100,400,900 sleeps=0,0,0 cancel=600")
 	return out
@@ -427,6 +606,16 @@ func gen(r *rand.Rand, tier string) []string {
 func class(in, obs string) string {
 	m := drv.KV(in)
 	o := drv.KV(obs)
+	if m["mode"] == "proc" {
+		if o["rc"] != "0" {
+			return ""
+		}
+		c := "proc/given=" + m["given"]
+		if o["disc"] != "0" {
+			c += "/discards"
+		}
+		return c
+	}
 	seq := o["seq"]
 	if seq == "" {
 		return ""
@@ -436,6 +625,16 @@ func class(in, obs string) string {
 		c += "/discard=" + m["discard"]
 		if m["inst"] != "1" {
 			c += "/multi"
+		}
+		if _, ok := m["cancel"]; ok {
+			c += "/cancel"
+		}
+	} else {
+		if m["unit"] == "us" {
+			c += "/near-us"
+		}
+		if _, ok := m["cancel"]; ok {
+			c += "/cancel"
 		}
 	}
 	if strings.Contains(seq, ":D") {
@@ -448,15 +647,27 @@ func class(in, obs string) string {
 }
 
 func main() {
+	workers := 16
+	for i, a := range os.Args {
+		if (a == "-tier" || a == "--tier") && i+1 < len(os.Args) && os.Args[i+1] == "thorough" {
+			workers = 32
+		}
+		if a == "-tier=thorough" || a == "--tier=thorough" {
+			workers = 32
+		}
+	}
 	drv.Main(&drv.Prop{
 		ID:      "C04",
 		Gen:     gen,
 		Run:     run,
 		Class:   class,
-		Workers: 8,
-		Timeout: 90 * time.Second,
-		Rule: "scripted real-time engine scenarios (1..4 instances, const/once/composite profiles, response-time histories 0/0.3/1/3 s and mixtures, " +
-			"discard_overflow on and off, one cancelled run) plus Waiter cases drawn from one PRNG: tokens seconds in the past / up to 300 ms in the " +
-			"future relative to time.Now(), real sleeps between calls, lateness >= 250 ms away from the 2 s threshold. non-trivial = at least one token drawn",
+		Workers: workers,
+		Timeout: 120 * time.Second,
+		Rule: "real-time runs of the real code, every instant taken on the monotonic clock: (a) the engine (engine.New(...).Run) on scripted and PRNG-drawn scenarios - " +
+			"1..16 instances, shared or per-instance once/const/line/step/composite profiles from the real constructors, response-time histories of 1..5 entries from " +
+			"0..4 s (slower than the inter-request interval and than 2 s), discard_overflow on and off, some runs cancelled; (b) the bare coreutil.Waiter on scripted schedules: " +
+			"tokens seconds in the past / up to 0.4 s in the future relative to time.Now(), real sleeps between calls, lateness far from, a few ms and a few hundred µs around " +
+			"the 2 s threshold, cancellation during the timer sleep; (c) the pandora binary with yaml configs that omit / set discard_overflow against a slow in-process HTTP " +
+			"target. Every decision is judged against the measured [pick-up, action] interval. non-trivial = at least one token drawn (proc: the process ran)",
 	})
 }
